@@ -389,6 +389,52 @@ fn generate(rng: &mut Rng, tier: Tier, cases: &mut Vec<Case>) {
     //      (thorough: 2^17, 3*2^16) both INSIDE an observed window and inside a silent stretch, and the run
     //      specs alternate between reachable and unreachable so that stale per-run state shows either way.
     long_reuse(rng, tier, cases);
+    // ---- wide graphs: thousands of nodes pass through the queue / stack of ONE search (buffers are reclaimed,
+    //      regrown or wrapped at 4096 / 8192 entries) while the graph stays shallow (the kernel-checked Spec
+    //      checkers work level by level on lists and stop at the first closed ball): source -> 70 nodes -> 70 nodes
+    //      each; the 3985th..4045th and 8111th..8131st node of the third layer (in search order) each have one
+    //      child, and every such child is the single target of one query: a node that is dropped from the queue
+    //      instead of being expanded makes its child unreachable
+    for fan in [70usize, 95] {
+        if tier == Tier::Quick && fan > 70 {
+            continue;
+        }
+        let mut edges: Vec<(usize, usize)> = Vec::new();
+        let mut n = 1usize;
+        let l1: Vec<usize> = (0..fan).map(|_| { n += 1; n - 1 }).collect();
+        for v in &l1 {
+            edges.push((0, *v));
+        }
+        let mut l2: Vec<usize> = Vec::new();
+        for u in &l1 {
+            for _ in 0..fan {
+                edges.push((*u, n));
+                l2.push(n);
+                n += 1;
+            }
+        }
+        let mut kids: Vec<usize> = Vec::new();
+        for k in [4096 - 1 - fan - 40..4096 - 1 - fan + 20, 8192 - 1 - fan - 10..8192 - 1 - fan + 10] {
+            for i in k {
+                if i < l2.len() {
+                    edges.push((l2[i], n));
+                    kids.push(n);
+                    n += 1;
+                }
+            }
+        }
+        edges.sort();
+        for alg in ["bfs", "dfs"] {
+            let mut c = Case::new("wide-graph");
+            c.op(g_line(alg, &edges));
+            for t in kids.iter() {
+                c.op(format!("q 0 {t} -"));
+            }
+            c.op(format!("q 0 {} -", lst(&kids)));
+            c.op(format!("q {} 0 -", kids[0]));
+            cases.push(c);
+        }
+    }
     // ---- all filters (every subset of the edge ids) on sampled small multigraphs
     let n_filt = match tier {
         Tier::Quick => 120,
